@@ -540,6 +540,7 @@ def modelScriptLine (v desc stmts raw : String) : String :=
   | some ver, some nd, some ss =>
     if raw == "na" then "ok"
     else if raw.startsWith "!!" then "ok"        -- hangs / escaped panics are the spec driver's business
+    else if (match nd with | .sqrt _ _ | .cube _ _ => true | _ => false) && rootArithmeticUntranslated ver then "ok"
     else match mnumOf ver nd with
     | none => if raw.startsWith "err:" then "ok" else s!"DIFF model=err impl={raw}"
     | some mn =>
